@@ -207,6 +207,18 @@ nsync_note nsync_note_new (nsync_note parent,
 	return (n);
 }
 
+/* Condition for nsync_note_free(): the note has no children left, or children
+   have been linked under it (n->adoptions changed) since the caller looked. */
+struct children_changed_s {
+	nsync_note n;
+	uint32_t seen_adoptions;
+};
+static int children_changed (const void *v) {
+	const struct children_changed_s *cc = (const struct children_changed_s *) v;
+	return (nsync_dll_is_empty_ (cc->n->children) ||
+		cc->n->adoptions != cc->seen_adoptions);
+}
+
 void nsync_note_free (nsync_note n) {
 	nsync_note parent;
 	nsync_dll_element_ *p;
@@ -224,34 +236,47 @@ void nsync_note_free (nsync_note n) {
 		nsync_mu_lock (&parent->note_mu);
 		nsync_mu_lock (&n->note_mu);
 	}
-	for (p = nsync_dll_first_ (n->children); p != NULL; p = next) {
-		nsync_note child = DLL_NOTE (p);
-		next = nsync_dll_next_ (n->children, p);
-		nsync_mu_lock (&child->note_mu);
-		if (child->disconnecting == 0) {
-			if (parent != NULL && ATM_LOAD_ACQ (&parent->notified) != 0) {
-				/* The adopting parent has already been notified, and
-				   may be past its loop over its children: notify the
-				   child now instead of handing it over un-notified.
-				   This also removes it from n->children.  */
-				child->disconnecting++;
-				note_notify_child (child, n);
-				child->disconnecting--;
-			} else {
-				n->children = nsync_dll_remove_ (n->children,
-								 &child->parent_child_link);
-				if (parent != NULL) {
-					child->parent = parent;
-					parent->children = nsync_dll_make_last_in_list_ (
-						parent->children, &child->parent_child_link);
+	/* Hand the children over, and wait for those that other threads are
+	   already disconnecting to go away.  A child's own nsync_note_free() may
+	   link ITS children under *n while we wait, so look again whenever the
+	   child list has changed, until it is empty.  */
+	for (;;) {
+		struct children_changed_s cc;
+		for (p = nsync_dll_first_ (n->children); p != NULL; p = next) {
+			nsync_note child = DLL_NOTE (p);
+			next = nsync_dll_next_ (n->children, p);
+			nsync_mu_lock (&child->note_mu);
+			if (child->disconnecting == 0) {
+				if (parent != NULL && ATM_LOAD_ACQ (&parent->notified) != 0) {
+					/* The adopting parent has already been notified, and
+					   may be past its loop over its children: notify the
+					   child now instead of handing it over un-notified.
+					   This also removes it from n->children.  */
+					child->disconnecting++;
+					note_notify_child (child, n);
+					child->disconnecting--;
 				} else {
-					child->parent = NULL;
+					n->children = nsync_dll_remove_ (n->children,
+									 &child->parent_child_link);
+					if (parent != NULL) {
+						child->parent = parent;
+						parent->children = nsync_dll_make_last_in_list_ (
+							parent->children, &child->parent_child_link);
+						parent->adoptions++;
+					} else {
+						child->parent = NULL;
+					}
 				}
 			}
+			nsync_mu_unlock (&child->note_mu);
 		}
-		nsync_mu_unlock (&child->note_mu);
+		if (nsync_dll_is_empty_ (n->children)) {
+			break;
+		}
+		cc.n = n;
+		cc.seen_adoptions = n->adoptions;
+		nsync_mu_wait (&n->note_mu, &children_changed, &cc, NULL);
 	}
-	WAIT_FOR_NO_CHILDREN (no_children, n);
 	if (parent != NULL) {
 		parent->children = nsync_dll_remove_ (parent->children,
 						      &n->parent_child_link);
